@@ -137,6 +137,11 @@ def histories():
         await L.op({"kind": "store", "box": "INBOX"}, w.op_store(a, [1, 3], "add", ["\\Deleted"]))
         await L.op({"kind": "expunge", "box": "INBOX"}, w.op_expunge(a))
         await L.op({"kind": "noop", "box": "INBOX"}, w.op_noop(a))
+        # an implicit flag change (\\Seen by a non-peek body fetch) is acknowledged like any other
+        await L.op({"kind": "fetch", "box": "INBOX"}, w.op_fetch(a, [2], "UID BODY[]", sets_seen=True))
+        await L.op({"kind": "noop", "box": "INBOX"}, w.op_noop(a))
+        await L.op({"kind": "fetch", "box": "INBOX"}, w.op_fetch(a, [3], "FLAGS"))
+        await L.op({"kind": "noop", "box": "INBOX"}, w.op_noop(a))
 
     async def h_delete_small(w, L, rnd):
         """Short history around one DELETE of the most recently created mailbox
